@@ -11,7 +11,7 @@ import shutil
 import subprocess
 import time
 
-BUILD = "/verif/.build"
+BUILD = os.path.join(os.environ.get("VERIF_ROOT", "/verif"), ".build")
 TARGET = os.path.join(BUILD, "mir-target")
 OUT = os.path.join(BUILD, "mir")
 
